@@ -3,11 +3,13 @@
 # Confirms in a private scratch worktree: demo passes clean; with patch: test-suite passes, demo fails.
 set -u
 pid=$1; m=$2
-src=/tmp/wt/$pid/_out/$m
-vw=/tmp/vw_${pid}_$m
-dst=/verif/seeded/$pid-$m
+# round 2: SRC_ROOT=/tmp/wt2 BASE=<current /repo HEAD> TAG=r2  (defaults: first round, pinned commit)
+src=${SRC_ROOT:-/tmp/wt}/$pid/_out/$m
+vw=/tmp/vw_${pid}_${TAG:-}$m
+dst=/verif/seeded/$pid-${TAG:-}$m
+base=${BASE:-2993898}
 [ -f $src/patch.diff ] || { echo "no patch"; exit 2; }
-git -C /repo worktree add -q --detach $vw 2993898 || exit 2
+git -C /repo worktree add -q --detach $vw $base || exit 2
 cleanup() { git -C /repo worktree remove --force $vw; }
 trap cleanup EXIT
 mkdir -p $vw/_out/$m; cp $src/demo.py $vw/_out/$m/
@@ -23,12 +25,14 @@ if [ $rc_clean -eq 0 ] && [ $rc_tests -eq 0 ] && [ $rc_mut -ne 0 ]; then
   /venv/bin/python - "$pid" "$m" "$dst" <<'PY'
 import json, sys, os
 pid, m, dst = sys.argv[1:4]
+import subprocess
 notes = open(os.path.join(dst, "notes.md")).read() if os.path.exists(os.path.join(dst, "notes.md")) else ""
 meta = {"breaks_property": pid, "mutant": m, "written_by": "independent sub-agent given only the property text and a scratch worktree",
         "needs_to_manifest": notes.strip(),
-        "confirmed": {"demo_on_pinned_tree": "exit 0", "test_suite_with_patch": "45 passed (pytest -q, scratch worktree)",
+        "base_commit": subprocess.check_output(["git", "-C", "/repo", "rev-parse", "--short", "HEAD"]).decode().strip() if "r2" in dst else "2993898 (pinned)",
+        "confirmed": {"demo_on_base_tree": "exit 0", "test_suite_with_patch": "45 passed (pytest -q, scratch worktree)",
                       "demo_with_patch": "non-zero exit"},
-        "how_to_run": "git -C /repo apply /verif/seeded/%s-%s/patch.diff; cd /verif && /venv/bin/python run_check.py %s --tier quick; git -C /repo checkout -- ." % (pid, m, pid),
+        "how_to_run": "git -C /repo apply %s/patch.diff; cd /verif && /venv/bin/python run_check.py %s --tier quick; git -C /repo checkout -- ." % (dst, pid),
         "detected_by": "see DESIGN.md section 7 (seeded-change matrix)"}
 json.dump(meta, open(os.path.join(dst, "meta.json"), "w"), indent=1)
 PY
